@@ -95,6 +95,9 @@ pub enum GenerateError {
     /// A function was declared but never given a body so there is nothing to export
     FunctionNotDefined,
 
+    /// The mips view of a texture only exists as part of a load expression so the type has no name to export
+    UnsupportedMipsIntermediate,
+
     /// Bind group (register space) index is outside the range of argument buffers we generate
     UnsupportedBindGroupIndex(u32),
 
@@ -1597,13 +1600,13 @@ fn generate_type_impl(
                 Texture2D(ty) => build_texture("texture2d", ty, false, context)?,
                 Texture2DMips(_) | Texture2DMipsSlice(_) => {
                     // We do not expect intermediate values for mips to get exported
-                    panic!("trying to export Texture2D.mips intermediates");
+                    return Err(GenerateError::UnsupportedMipsIntermediate);
                 }
 
                 Texture2DArray(ty) => build_texture("texture2d_array", ty, false, context)?,
                 Texture2DArrayMips(_) | Texture2DArrayMipsSlice(_) => {
                     // We do not expect intermediate values for mips to get exported
-                    panic!("trying to export Texture2DArray.mips intermediates");
+                    return Err(GenerateError::UnsupportedMipsIntermediate);
                 }
 
                 RWTexture2D(ty) => build_texture("texture2d", ty, true, context)?,
@@ -1616,7 +1619,7 @@ fn generate_type_impl(
 
                 Texture3D(ty) => build_texture("texture3d", ty, false, context)?,
                 Texture3DMips(_) | Texture3DMipsSlice(_) => {
-                    panic!("trying to export Texture3D.mips intermediates");
+                    return Err(GenerateError::UnsupportedMipsIntermediate);
                 }
                 RWTexture3D(ty) => build_texture("texture3d", ty, true, context)?,
 
